@@ -143,6 +143,23 @@ impl Middleware for PassMw {
 
 const BLOCKING_ROUTES: [&str; 5] = ["/hold", "/hold_ctx", "/hold_typed", "/hold_tctx", "/hold_erased"];
 
+/// Further blocking routes that differ only in their NAME: 2 bytes, 63 / 64 / 65 bytes of ASCII, and
+/// non-ASCII names ("/" + k x "é", two bytes per character at odd offsets) in which byte 16 / 32 / 64 /
+/// 128 / 256 / 1024 falls inside a character; one name over 1 KiB.  Registered in turn through the four
+/// `_blocking` registrars and the erased off-reader handler.
+fn named_routes() -> Vec<String> {
+    let e = |k: usize| format!("/{}", "é".repeat(k));
+    vec!["/h".to_string(), format!("/{}", "a".repeat(62)), format!("/{}", "a".repeat(63)), format!("/{}", "a".repeat(64)),
+         e(10), e(20), e(40), e(70), e(140), e(600), format!("/é/{}/ß", "日本".repeat(11))]
+}
+
+/// The route a blocking request with this id goes to (all routes, scrambled by the id).
+fn route_for(id: u64) -> String {
+    let named = named_routes();
+    let k = (fnv(&(id ^ 0x5bd1e995).to_le_bytes()) % (BLOCKING_ROUTES.len() + named.len()) as u64) as usize;
+    if k < BLOCKING_ROUTES.len() { BLOCKING_ROUTES[k].to_string() } else { named[k - BLOCKING_ROUTES.len()].clone() }
+}
+
 /// A hand-written `HandlerErased` that asks for off-reader execution itself (no `_blocking` registrar).
 struct ErasedHold(Arc<Shared>);
 impl repe::server::HandlerErased for ErasedHold {
@@ -177,6 +194,17 @@ fn make_router(sh: &Arc<Shared>, mw: bool) -> Router {
         .with_json("/ping", |_v| Ok(json!("pong")))
         .with_json("/big", |v: Value| Ok(json!("x".repeat(v["n"].as_u64().unwrap_or(0) as usize))))
         .with_json("/fail", |v: Value| Err((code_of(v["c"].as_u64().unwrap_or(4) as u32), "asked to fail".into())));
+    let mut r = r;
+    for (i, name) in named_routes().into_iter().enumerate() {
+        let h = sh.clone();
+        r = match i % 5 {
+            0 => r.with_json_blocking(&name, move |v: Value| hold(&h, v["k"].as_u64().unwrap_or(0))),
+            1 => r.with_json_ctx_blocking(&name, move |_ctx: &CallContext, v: Value| hold(&h, v["k"].as_u64().unwrap_or(0))),
+            2 => r.with_typed_blocking::<KIn, Value, _>(&name, move |i: KIn| -> Result<Value, (ErrorCode, String)> { hold(&h, i.k) }),
+            3 => r.with_typed_ctx_blocking::<KIn, Value, _>(&name, move |_ctx: &CallContext, i: KIn| -> Result<Value, (ErrorCode, String)> { hold(&h, i.k) }),
+            _ => r.with_erased_handler(&name, Arc::new(ErasedHold(h))),
+        };
+    }
     if mw {
         r.with_middleware(PassMw(sh.clone()))
     } else {
@@ -274,7 +302,9 @@ async fn start_server(cap: Option<usize>, mw: bool, ocap: Option<usize>, dflt: b
     }
     let (tx, rx) = tokio::sync::oneshot::channel();
     std::thread::spawn(move || {
-        let rt = tokio::runtime::Builder::new_current_thread().enable_all().max_blocking_threads(64).build().unwrap();
+        let pool = ocap.filter(|o| *o >= POOL_BASE).map(|o| o - POOL_BASE);
+        let ocap = ocap.filter(|o| *o < POOL_BASE);
+        let rt = tokio::runtime::Builder::new_current_thread().enable_all().max_blocking_threads(pool.unwrap_or(64)).build().unwrap();
         rt.block_on(async move {
             let (server, sh) = build_server(cap, mw, ocap, dflt);
             let l = TcpListener::bind("127.0.0.1:0").await.unwrap();
@@ -297,6 +327,10 @@ enum Op {
     /// `begin`: the arrival that follows is refused and the exits that follow it happen *inside* that
     /// refusal (the server's `on_error` hook releases the handlers and waits for them)
     Hook { begin: bool },
+    /// `begin`: the blocking arrival that follows is under the cap but no pool thread is free for it (it can
+    /// only start once a parked handler has left); the inline arrivals after it must be answered all the
+    /// same; then the exits; the starved handler starts
+    Starve { begin: bool },
     /// rounds of: fill the cap, then release everything while a burst of further requests is on its way;
     /// ends with nothing running (no per-request prediction: only the direct oracles apply)
     Race { rounds: usize, extra: usize },
@@ -310,10 +344,12 @@ fn op_line(idx: &str, op: &Op) -> String {
     match op {
         Op::Cap { mw, dflt: true, .. } => format!("cap {} d {}", idx, *mw as u8),
         Op::Cap { cap, mw, ocap: None, .. } => format!("cap {} {} {}", idx, cap.map(|c| c.to_string()).unwrap_or("-".into()), *mw as u8),
+        Op::Cap { cap, mw, ocap: Some(o), .. } if *o >= POOL_BASE => format!("cap {} {} {} p{}", idx, cap.map(|c| c.to_string()).unwrap_or("-".into()), *mw as u8, o - POOL_BASE),
         Op::Cap { cap, mw, ocap: Some(o), .. } => format!("cap {} {} {} {}", idx, cap.map(|c| c.to_string()).unwrap_or("-".into()), *mw as u8, o),
         Op::Reconnect => format!("reconnect {}", idx),
         Op::Hook { begin } => format!("hook {} {}", idx, if *begin { "begin" } else { "end" }),
         Op::Race { rounds, extra } => format!("race {} {} {}", idx, rounds, extra),
+        Op::Starve { begin } => format!("starve {} {}", idx, if *begin { "begin" } else { "end" }),
         Op::Burst { begin } => format!("burst {} {}", idx, if *begin { "begin" } else { "end" }),
         Op::Arrive { id, blocking, notify, ec } => format!("arrive {} {} {} {} {}", idx, id, if *blocking { "blocking" } else { "inline" }, *notify as u8, ec),
         Op::Exit { id, cmd } => format!("exit {} {} {}", idx, id, match cmd { Cmd::Ret => "ret".to_string(), Cmd::Err(c) => format!("err {}", c), Cmd::Panic(0) => "panic".to_string(), Cmd::Panic(k) => format!("panic {}", k) }),
@@ -325,10 +361,12 @@ fn parse_op(line: &str) -> Option<(String, Op)> {
     match w.as_slice() {
         ["cap", idx, "d", mw] => Some((idx.to_string(), Op::Cap { cap: Some(repe::websocket_server::DEFAULT_OFFREADER_LIMIT), mw: *mw == "1", ocap: None, dflt: true })),
         ["cap", idx, c, mw] => Some((idx.to_string(), Op::Cap { cap: if *c == "-" { None } else { Some(c.parse().ok()?) }, mw: *mw == "1", ocap: None, dflt: false })),
-        ["cap", idx, c, mw, o] => Some((idx.to_string(), Op::Cap { cap: if *c == "-" { None } else { Some(c.parse().ok()?) }, mw: *mw == "1", ocap: Some(o.parse().ok()?), dflt: false })),
+        ["cap", idx, c, mw, o] => Some((idx.to_string(), Op::Cap { cap: if *c == "-" { None } else { Some(c.parse().ok()?) }, mw: *mw == "1", ocap: Some(match o.strip_prefix('p') { Some(k) => POOL_BASE + k.parse::<usize>().ok()?, None => o.parse().ok()? }), dflt: false })),
         ["reconnect", idx] => Some((idx.to_string(), Op::Reconnect)),
         ["hook", idx, "begin"] => Some((idx.to_string(), Op::Hook { begin: true })),
         ["hook", idx, "end"] => Some((idx.to_string(), Op::Hook { begin: false })),
+        ["starve", idx, "begin"] => Some((idx.to_string(), Op::Starve { begin: true })),
+        ["starve", idx, "end"] => Some((idx.to_string(), Op::Starve { begin: false })),
         ["race", idx, r, e] => Some((idx.to_string(), Op::Race { rounds: r.parse().ok()?, extra: e.parse().ok()? })),
         ["burst", idx, "begin"] => Some((idx.to_string(), Op::Burst { begin: true })),
         ["burst", idx, "end"] => Some((idx.to_string(), Op::Burst { begin: false })),
@@ -414,6 +452,9 @@ struct OpResult {
 }
 
 const BIG: usize = 48 * 1024;
+/// `ocap` values from here on mean: default outbound queue, a server runtime whose blocking pool has
+/// only `ocap - POOL_BASE` threads (written `p<k>` on the cap line)
+const POOL_BASE: usize = 10_000;
 
 fn request_frame_in(id: u64, blocking: bool, notify: bool, ec: u32, burst: bool) -> RawFrame {
     if burst && !blocking && ec == 0 {
@@ -424,7 +465,7 @@ fn request_frame_in(id: u64, blocking: bool, notify: bool, ec: u32, burst: bool)
 
 fn request_frame(id: u64, blocking: bool, notify: bool, ec: u32) -> RawFrame {
     if blocking {
-        let route = BLOCKING_ROUTES[(id % 5) as usize];
+        let route = route_for(id);
         // body shape by id: plain, padded (1 KiB / 40 KiB of ignored field, also non-ASCII), Utf8-framed JSON
         let h = fnv(&id.to_le_bytes());
         let body = match h % 6 {
@@ -722,6 +763,95 @@ async fn do_hooked(c: &mut Conn, arrive: &(String, u64, bool), exits: &[(String,
             }
         };
         out.push(OpResult { obs: format!("{idx} {what} ; running {running}"), fails, broken: false });
+    }
+    out
+}
+
+/// The blocking pool is exhausted: `starved` (under the cap) is accepted but cannot start; the inline
+/// requests after it must still be answered (the reader is free); after the exits the starved handler runs.
+async fn do_starved(c: &mut Conn, starved: &(String, u64, bool), inlines: &[(String, u64, u32)], exits: &[(String, u64, Cmd)]) -> Vec<OpResult> {
+    let (sidx, sid, snotify) = starved;
+    let mut out = Vec::new();
+    c.drain_events();
+    let parked_before = c.parked.len() as i64;
+    if *snotify {
+        c.notifies.insert(*sid);
+    }
+    if let Err(e) = c.send(&request_frame(*sid, true, *snotify, 0)).await {
+        out.push(OpResult { obs: format!("{sidx} closed ; running {}", c.gauge()), fails: vec![("offreader.connection".into(), format!("{sidx}: {e}"))], broken: true });
+        return out;
+    }
+    let mut entered = false;
+    let mut refused: Option<u32> = None;
+    let mut results: Vec<OpResult> = Vec::new();
+    // the reader must go on reading: every inline request is answered although `starved` has not started
+    for (idx, id, ec) in inlines {
+        let _ = c.send(&request_frame(*id, false, false, *ec)).await;
+        let deadline = Instant::now() + WATCHDOG;
+        let mut got: Option<u32> = None;
+        let mut fails = Vec::new();
+        let mut broken = false;
+        while got.is_none() {
+            match c.next(deadline).await {
+                Seen::Event(SrvEvent::Entered(k)) if k == *sid => entered = true,
+                Seen::Event(_) => {}
+                Seen::Frame(f) if f.h.notify == 0 && f.h.id == *id => got = Some(f.h.ec),
+                Seen::Frame(f) if f.h.notify == 0 && f.h.id == *sid => refused = Some(f.h.ec),
+                Seen::Frame(f) => c.stray.push(f),
+                Seen::Timeout => {
+                    fails.push(("offreader.reader_blocked".to_string(), format!("{idx}: inline request {id} was not answered within {:?} while request {sid} (under the cap, {} handler(s) parked) was waiting for a free blocking-pool thread", WATCHDOG, parked_before)));
+                    broken = true;
+                    break;
+                }
+                Seen::Closed(e) => {
+                    fails.push(("offreader.connection".to_string(), format!("{idx}: {e}")));
+                    broken = true;
+                    break;
+                }
+            }
+        }
+        let what = match got { Some(ec) => format!("resp {} {}", id, ec), None => "timeout".to_string() };
+        results.push(OpResult { obs: format!("{idx} {what} ; running {}", parked_before + 1), fails, broken });
+        if broken {
+            break;
+        }
+    }
+    let broken = results.iter().any(|r| r.broken);
+    let first = match refused {
+        Some(ec) => format!("resp {} {}", sid, ec),
+        None => format!("admitted {sid}"),
+    };
+    out.push(OpResult { obs: format!("{sidx} {first} ; running {}", parked_before + if refused.is_none() { 1 } else { 0 }), fails: vec![], broken: false });
+    out.extend(results);
+    if broken {
+        return out;
+    }
+    if refused.is_none() {
+        c.parked.insert(*sid, *snotify);
+    }
+    // the exits free pool threads; the starved handler then starts
+    for (idx, id, cmd) in exits {
+        let mut r = do_exit(c, idx, *id, *cmd).await;
+        // `running` as the model counts it: the accepted request counts from its admission on
+        let w: Vec<&str> = r.obs.split(" ; running ").collect();
+        let counted = c.parked.len() as i64;
+        r.obs = format!("{} ; running {}", w[0], counted);
+        out.push(r);
+    }
+    if refused.is_none() && !entered {
+        // its `Entered` signal may have been consumed while the exits were observed: the gate it registers
+        // on entry tells as well
+        let deadline = Instant::now() + WATCHDOG;
+        while !c.sh.gates.lock().unwrap().contains_key(sid) {
+            if Instant::now() > deadline {
+                if let Some(l) = out.last_mut() {
+                    l.fails.push(("offreader.arrive.no_effect".to_string(), format!("{sidx}: request {sid} was accepted under the cap but its handler never started although pool threads were freed")));
+                    l.broken = true;
+                }
+                break;
+            }
+            tokio::time::sleep(Duration::from_millis(2)).await;
+        }
     }
     out
 }
@@ -1175,6 +1305,26 @@ fn gen_scripts(r: &mut Rng, thorough: bool) -> Vec<Vec<Op>> {
             scripts.push(g.ops);
         }
     }
+    // the runtime's blocking pool is smaller than the cap: an accepted request may have to wait for a
+    // thread, the reader may not wait with it
+    for (pool, cap) in if thorough { vec![(1usize, 2usize), (2, 4), (3, 8), (1, 16)] } else { vec![(1usize, 2usize), (2, 4)] } {
+        let mut g = Gen::new(Some(cap), pool % 2 == 0, nb());
+        g.ops[0] = Op::Cap { cap: Some(cap), mw: pool % 2 == 0, ocap: Some(POOL_BASE + pool), dflt: false };
+        for _ in 0..pool {
+            g.arrive(true, false, 0);
+        }
+        g.ops.push(Op::Starve { begin: true });
+        g.arrive(true, false, 0);
+        g.arrive(false, false, 0);
+        g.arrive(false, false, 4);
+        let first = g.running[0];
+        g.exit(first, Cmd::Ret);
+        g.ops.push(Op::Starve { begin: false });
+        g.arrive(false, false, 0);
+        g.exit_all(r);
+        g.arrive(false, false, 0);
+        scripts.push(g.ops);
+    }
     // pressure: bursts written in one piece against a one-slot outbound queue
     for round in 0..(if thorough { 8 } else { 2 }) {
         for cap in 1..=3usize {
@@ -1321,9 +1471,45 @@ async fn run_script(out: &mut Out, servers: &mut HashMap<SrvKey, Srv>, sno: usiz
                     k += 1;
                 }
             }
-            Op::Hook { begin: false } => {
+            Op::Hook { begin: false } | Op::Starve { begin: false } => {
                 k += 1;
                 continue;
+            }
+            Op::Starve { begin: true } => {
+                out.config(&lines[k]);
+                out.count("offreader.starved_admissions(blocking_pool_exhausted)");
+                let mut e = k + 1;
+                let (mut starved, mut inl, mut exits, mut idxs) = (None, Vec::new(), Vec::new(), Vec::new());
+                while e < ops.len() {
+                    match &ops[e].1 {
+                        Op::Arrive { id, notify, blocking: true, .. } if starved.is_none() => {
+                            starved = Some((ops[e].0.clone(), *id, *notify));
+                            idxs.push(e);
+                        }
+                        Op::Arrive { id, blocking: false, ec, .. } if starved.is_some() && exits.is_empty() => {
+                            inl.push((ops[e].0.clone(), *id, *ec));
+                            idxs.push(e);
+                        }
+                        Op::Exit { id, cmd } if starved.is_some() => {
+                            exits.push((ops[e].0.clone(), *id, *cmd));
+                            idxs.push(e);
+                        }
+                        _ => break,
+                    }
+                    e += 1;
+                }
+                if let Some(st) = starved {
+                    in_burst = true;
+                    let rs = do_starved(&mut c, &st, &inl, &exits).await;
+                    for (i, r) in idxs.into_iter().zip(rs) {
+                        results.push((i, r));
+                    }
+                }
+                k = e;
+                if k < ops.len() && matches!(ops[k].1, Op::Starve { begin: false }) {
+                    end_line = Some(k);
+                    k += 1;
+                }
             }
             Op::Race { rounds, extra } => {
                 out.config(&lines[k]);
